@@ -1,5 +1,6 @@
 import SynKitModel.Cluster
 import SynKitProofs.ClusterLemmas
+import SynKitProofs.ClusterIso
 /-!
 # C13 — clustering partitions graphs exactly into isomorphism classes
 
@@ -386,5 +387,418 @@ theorem C13.full : C13.FullStatement := by
         incremental_perm_invariant hE hK xs ys σ hσ a b ha hb⟩
     · intro ts x hT; exact libCheck_joins_representative hE hK ts hT x
     · intro l ts hT; exact cluster_with_templates_spec hE hK l ts hT
+
+/-! ## The theorems relativised to a carrier predicate
+
+The oracle of the real code (`graph_isomorphism`) is an equivalence relation on WELL-FORMED graphs
+only, so the hypotheses `IsEquiv` / `KeyInv` are asked on a carrier `P` (`IsEquivOn P iso`,
+`KeyInvOn P iso key`) and the lists / templates are assumed to lie in `P`.  Each theorem is obtained from
+its unrelativised version over the subtype `{x // P x}` through the pull-back lemmas of
+`SynKitProofs/ClusterIso.lean` (`classOf_map`, `libCheck_map`, `clusterRun_map`, `tinv_map`). -/
+
+/-- **C13, "two items share a class iff their graphs are isomorphic"**, relativised to a carrier `P`. -/
+theorem same_class_iff_on {P : α → Prop} {iso : α → α → Bool} {key : α → κ} (hE : IsEquivOn P iso)
+    (hK : KeyInvOn P iso key) (xs : List α) (hP : ∀ x ∈ xs, P x) (i j : Nat) (hi : i < xs.length) (hj : j < xs.length) :
+    classOf iso key xs i = classOf iso key xs j ↔ iso xs[i] xs[j] = true := by
+  obtain ⟨ys, rfl⟩ := exists_lift xs hP
+  rw [classOf_map, classOf_map]
+  simp only [List.getElem_map]
+  exact same_class_iff (isEquiv_sub hE) (keyInv_sub hK) ys i j (by simpa using hi) (by simpa using hj)
+
+/-- **C13, "the partition does not depend on the order of the list"**, relativised to a carrier `P`. -/
+theorem cluster_perm_invariant_on {P : α → Prop} {iso : α → α → Bool} {key : α → κ} (hE : IsEquivOn P iso)
+    (hK : KeyInvOn P iso key) (xs ys : List α) (hPx : ∀ x ∈ xs, P x) (hPy : ∀ y ∈ ys, P y) (σ : Nat → Nat)
+    (hσ : ∀ a, a < ys.length → σ a < xs.length ∧ ys[a]? = xs[σ a]?)
+    (a b : Nat) (ha : a < ys.length) (hb : b < ys.length) :
+    classOf iso key ys a = classOf iso key ys b ↔ classOf iso key xs (σ a) = classOf iso key xs (σ b) := by
+  obtain ⟨ha', ea⟩ := hσ a ha
+  obtain ⟨hb', eb⟩ := hσ b hb
+  rw [same_class_iff_on hE hK ys hPy a b ha hb, same_class_iff_on hE hK xs hPx (σ a) (σ b) ha' hb']
+  rw [List.getElem?_eq_getElem ha, List.getElem?_eq_getElem ha'] at ea
+  rw [List.getElem?_eq_getElem hb, List.getElem?_eq_getElem hb'] at eb
+  rw [Option.some.inj ea, Option.some.inj eb]
+
+/-- Non-vacuity of the relativised theorems: on the carrier `P x := x < 100` the residue oracle is an
+equivalence with invariant key (it is one everywhere; the point is that the hypotheses are satisfiable). -/
+example : IsEquivOn (fun x : Nat => x < 100) exIso ∧ KeyInvOn (fun x : Nat => x < 100) exIso exKey :=
+  ⟨⟨fun x _ => exIso_equiv.refl x, fun x y _ _ => exIso_equiv.symm x y, fun x y z _ _ _ => exIso_equiv.trans x y z⟩,
+    fun x y _ _ => exKey_inv x y⟩
+
+/-- **C13, "puts each into the class of its isomorphic representative or into a fresh class when none
+exists"**, relativised to a carrier `P` (templates and the item lie in `P`; the new templates do too). -/
+theorem libCheck_joins_representative_on {P : α → Prop} {iso : α → α → Bool} {key : α → κ} (hE : IsEquivOn P iso)
+    (hK : KeyInvOn P iso key) (ts : List (Tmpl α)) (hPt : ∀ t ∈ ts, P t.item) (hT : TInv iso ts) (x : α) (hx : P x) :
+    (∀ t ∈ ts, iso t.item x = true → libCheck iso key x ts = (t.cls, ts)) ∧
+    ((∀ t ∈ ts, iso t.item x = false) →
+        (libCheck iso key x ts).1 ∉ ts.map (·.cls) ∧
+        (libCheck iso key x ts).2 = ts ++ [⟨x, (libCheck iso key x ts).1⟩]) ∧
+    TInv iso (libCheck iso key x ts).2 ∧ (∀ t ∈ (libCheck iso key x ts).2, P t.item) := by
+  obtain ⟨us, rfl⟩ := exists_lift_tmpl ts hPt
+  have hx' : x = (⟨x, hx⟩ : {x // P x}).val := rfl
+  obtain ⟨h1, h2, h3⟩ := libCheck_joins_representative (isEquiv_sub hE) (keyInv_sub hK) us
+    ((tinv_map iso Subtype.val us).1 hT) ⟨x, hx⟩
+  have hcls : (us.map (tmap Subtype.val)).map (·.cls) = us.map (·.cls) := by
+    rw [List.map_map]; rfl
+  rw [hx', libCheck_map]
+  refine ⟨?_, ?_, (tinv_map iso Subtype.val _).2 h3, ?_⟩
+  · intro t ht hiso
+    obtain ⟨u, hu, rfl⟩ := List.mem_map.1 ht
+    rw [h1 u hu hiso]; rfl
+  · intro hall
+    obtain ⟨g1, g2⟩ := h2 (fun u hu => hall _ (List.mem_map.2 ⟨u, hu, rfl⟩))
+    refine ⟨by rw [hcls]; exact g1, ?_⟩
+    simp only
+    rw [g2, List.map_append]
+    rfl
+  · intro t ht
+    obtain ⟨u, _, rfl⟩ := List.mem_map.1 ht
+    exact u.item.2
+
+/-- **C13, classification of a whole arrival sequence against existing representatives**, relativised
+to a carrier `P`. -/
+theorem cluster_with_templates_spec_on {P : α → Prop} {iso : α → α → Bool} {key : α → κ} (hE : IsEquivOn P iso)
+    (hK : KeyInvOn P iso key) (l : List α) (hPl : ∀ x ∈ l, P x) (ts : List (Tmpl α)) (hPt : ∀ t ∈ ts, P t.item)
+    (hT : TInv iso ts) :
+    TInv iso (clusterRun iso key l ts).2 ∧ (∃ E, (clusterRun iso key l ts).2 = ts ++ E) ∧
+    (clusterRun iso key l ts).1.length = l.length ∧
+    (∀ (i j : Nat) (xi xj : α) (ci cj : Int), l[i]? = some xi → l[j]? = some xj →
+      (clusterRun iso key l ts).1[i]? = some ci → (clusterRun iso key l ts).1[j]? = some cj →
+      (ci = cj ↔ iso xi xj = true)) ∧
+    (∀ t ∈ ts, ∀ (k : Nat) (x : α) (c : Int), l[k]? = some x → (clusterRun iso key l ts).1[k]? = some c →
+      (c = t.cls ↔ iso t.item x = true)) := by
+  obtain ⟨us, rfl⟩ := exists_lift_tmpl ts hPt
+  obtain ⟨ys, rfl⟩ := exists_lift l hPl
+  obtain ⟨h1, ⟨E, h2⟩, h3, h4, h5⟩ := cluster_with_templates_spec (isEquiv_sub hE) (keyInv_sub hK) ys us
+    ((tinv_map iso Subtype.val us).1 hT)
+  rw [clusterRun_map]
+  refine ⟨(tinv_map iso Subtype.val _).2 h1, ⟨E.map (tmap Subtype.val), by simp only; rw [h2, List.map_append]⟩,
+    by simpa using h3, ?_, ?_⟩
+  · intro i j xi xj ci cj hi hj hci hcj
+    rw [List.getElem?_map] at hi hj
+    cases hi' : ys[i]? with
+    | none => rw [hi'] at hi; cases hi
+    | some yi =>
+      cases hj' : ys[j]? with
+      | none => rw [hj'] at hj; cases hj
+      | some yj =>
+        rw [hi'] at hi; rw [hj'] at hj
+        cases hi; cases hj
+        exact h4 i j yi yj ci cj hi' hj' hci hcj
+  · intro t ht k x c hk hc
+    obtain ⟨u, hu, rfl⟩ := List.mem_map.1 ht
+    rw [List.getElem?_map] at hk
+    cases hk' : ys[k]? with
+    | none => rw [hk'] at hk; cases hk
+    | some y =>
+      rw [hk'] at hk
+      cases hk
+      exact h5 u hu k y c hk' hc
+
+/-- **C13, incremental vs one-shot co-classification** (no hypothesis on `iso` or `key`): from empty
+templates, incremental classification puts two arrivals into one class exactly when one-shot clustering of
+the same list does (consequence of `incremental_eq_oneshot`). -/
+theorem incremental_same_class_iff_oneshot (iso : α → α → Bool) (key : α → κ) (ys : List α)
+    (a b : Nat) (ha : a < ys.length) (hb : b < ys.length) :
+    (clusterRun iso key ys []).1[a]? = (clusterRun iso key ys []).1[b]? ↔
+      classOf iso key ys a = classOf iso key ys b := by
+  have h := (incremental_eq_oneshot iso key ys).1
+  have e : ∀ c, c < ys.length →
+      ((clusterRun iso key ys []).1[c]?).map some = some ((classOf iso key ys c).map Int.ofNat) := by
+    intro c hc
+    have := congrArg (·[c]?) h
+    simp only [List.getElem?_map, gcClasses, List.getElem?_range hc, Option.map_some] at this
+    rw [← this]
+  have ea := e a ha
+  have eb := e b hb
+  obtain ⟨ca, hca, _⟩ := (cluster_partition iso key ys).2.2.2.2.1 a ha
+  obtain ⟨cb, hcb, _⟩ := (cluster_partition iso key ys).2.2.2.2.1 b hb
+  rw [hca] at ea ⊢
+  rw [hcb] at eb ⊢
+  cases ha' : (clusterRun iso key ys []).1[a]? with
+  | none => rw [ha'] at ea; simp at ea
+  | some va =>
+    cases hb' : (clusterRun iso key ys []).1[b]? with
+    | none => rw [hb'] at eb; simp at eb
+    | some vb =>
+      rw [ha'] at ea; rw [hb'] at eb
+      simp only [Option.map_some, Option.some.injEq] at ea eb
+      subst ea; subst eb
+      simp only [Option.some.injEq]
+      exact Int.ofNat_inj
+
+/-- **C13, incremental classification in any arrival order**, relativised to a carrier `P`. -/
+theorem incremental_perm_invariant_on {P : α → Prop} {iso : α → α → Bool} {key : α → κ} (hE : IsEquivOn P iso)
+    (hK : KeyInvOn P iso key) (xs ys : List α) (hPx : ∀ x ∈ xs, P x) (hPy : ∀ y ∈ ys, P y) (σ : Nat → Nat)
+    (hσ : ∀ a, a < ys.length → σ a < xs.length ∧ ys[a]? = xs[σ a]?)
+    (a b : Nat) (ha : a < ys.length) (hb : b < ys.length) :
+    (clusterRun iso key ys []).1[a]? = (clusterRun iso key ys []).1[b]? ↔
+      classOf iso key xs (σ a) = classOf iso key xs (σ b) := by
+  rw [incremental_same_class_iff_oneshot iso key ys a b ha hb]
+  exact cluster_perm_invariant_on hE hK xs ys hPx hPy σ hσ a b ha hb
+
+/-! ## C13 with the real isomorphism: element, charge and bond order
+
+`clIso G H = isoDecide clSel (norm G) (norm H)` (`SynKitProofs/ClusterIso.lean`) is
+`graph_isomorphism(G, H, nodeMatch, edgeMatch)` with the matchers `GraphCluster()` / `BatchCluster()`
+build: node keys `element`, `charge`, edge key `order`, no hydrogen rule, the `generic_*_match` defaults
+(`"*"`, `0`, `1`) written out by `norm` (`nodeOk_norm_iff`, `edgeOk_norm_iff`).  It decides
+`∃ m, IsIso clSel (norm G) (norm H) m` (`clIso_iff`) and is an equivalence on well-formed graphs. -/
+
+open SynKit.Match
+
+/-- **The oracle of the code is an equivalence relation on well-formed graphs** (the hypothesis `IsEquiv`
+of the abstract theorems, over the subtype of well-formed graphs; `clIso_equivOn` is the same fact with a
+carrier predicate): reflexive, symmetric (no hydrogen rule), transitive. -/
+theorem clIso_equiv_wf : IsEquiv (fun G H : {G : LGraph // G.WF} => clIso G.1 H.1) :=
+  isEquiv_sub clIso_equivOn
+
+omit [DecidableEq κ] in
+/-- "Isomorphism-invariant pre-grouping attribute" for the real isomorphism. The constant attribute
+(`attribute_key = None`) satisfies it trivially. -/
+def KeyInvIso (key : LGraph → κ) : Prop :=
+  ∀ G H : LGraph, G.WF → H.WF → (∃ m, IsIso clSel (norm G) (norm H) m) → key G = key H
+
+omit [DecidableEq κ] in
+theorem KeyInvIso.on {key : LGraph → κ} (hK : KeyInvIso key) : KeyInvOn LGraph.WF clIso key :=
+  fun G H hG hH h => hK G H hG hH ((clIso_iff G H hH).1 h)
+
+/-- **C13, "two items share a class iff their graphs are isomorphic on element, charge and bond order".**
+For every list of well-formed graphs and every isomorphism-invariant pre-grouping attribute, two positions
+get the same class from `GraphCluster.iterative_cluster` / `fit` exactly when there is a node bijection
+between the two graphs that preserves adjacency and non-adjacency, `element`, `charge` (defaults `"*"`, `0`)
+and `order` (default `1`). -/
+theorem same_class_iff_iso {key : LGraph → κ} (hK : KeyInvIso key) (xs : List LGraph) (hW : ∀ G ∈ xs, G.WF)
+    (i j : Nat) (hi : i < xs.length) (hj : j < xs.length) :
+    classOf clIso key xs i = classOf clIso key xs j ↔ ∃ m, IsIso clSel (norm xs[i]) (norm xs[j]) m := by
+  rw [same_class_iff_on clIso_equivOn hK.on xs hW i j hi hj]
+  exact clIso_iff xs[i] xs[j] (hW _ (List.getElem_mem hj))
+
+/-- **C13, "the partition does not depend on the order of the list"**, for the real isomorphism:
+if `ys` is `xs` read through an index map `σ` (a reordering), two positions of `ys` are classified
+together exactly when their pre-images are classified together in `xs` — and that is exactly when the two
+graphs are isomorphic on element, charge and bond order. -/
+theorem cluster_perm_invariant_iso {key : LGraph → κ} (hK : KeyInvIso key) (xs ys : List LGraph)
+    (hWx : ∀ G ∈ xs, G.WF) (hWy : ∀ G ∈ ys, G.WF) (σ : Nat → Nat)
+    (hσ : ∀ a, a < ys.length → σ a < xs.length ∧ ys[a]? = xs[σ a]?)
+    (a b : Nat) (ha : a < ys.length) (hb : b < ys.length) :
+    (classOf clIso key ys a = classOf clIso key ys b ↔ classOf clIso key xs (σ a) = classOf clIso key xs (σ b)) ∧
+    (classOf clIso key ys a = classOf clIso key ys b ↔ ∃ m, IsIso clSel (norm ys[a]) (norm ys[b]) m) :=
+  ⟨cluster_perm_invariant_on clIso_equivOn hK.on xs ys hWx hWy σ hσ a b ha hb,
+    same_class_iff_iso hK ys hWy a b ha hb⟩
+
+/-- **C13, "classifying new items against existing class representatives", raw form, for the real
+isomorphism.** For ANY template list and a well-formed new graph `x`, `lib_check` either finds a template
+with equal attribute that is isomorphic to `x` on element, charge and bond order — the FIRST such in
+template order —, returns its class and leaves the templates unchanged; or no template with equal attribute
+is isomorphic to `x`, the returned class is fresh and exactly one template (`x` with that class) is appended. -/
+theorem libCheck_spec_iso (key : LGraph → κ) (x : LGraph) (hx : x.WF) (ts : List (Tmpl LGraph)) :
+    (∃ pre t post, ts = pre ++ t :: post ∧
+        (key t.item = key x ∧ ∃ m, IsIso clSel (norm t.item) (norm x) m) ∧
+        (∀ u ∈ pre, ¬ (key u.item = key x ∧ ∃ m, IsIso clSel (norm u.item) (norm x) m)) ∧
+        libCheck clIso key x ts = (t.cls, ts)) ∨
+    ((∀ t ∈ ts, ¬ (key t.item = key x ∧ ∃ m, IsIso clSel (norm t.item) (norm x) m)) ∧
+        libCheck clIso key x ts = (newClass ts, ts ++ [⟨x, newClass ts⟩]) ∧ ∀ t ∈ ts, t.cls ≠ newClass ts) := by
+  have h := libCheck_spec clIso key x ts
+  simp only [clIso_iff _ x hx] at h
+  exact h
+
+/-- **C13, "puts each into the class of its isomorphic representative or into a fresh class when none
+exists", for the real isomorphism.** Well-formed templates that are one representative per class
+(pairwise non-isomorphic, pairwise different class numbers), an invariant attribute, a well-formed new
+graph: if a template is isomorphic to it on element, charge and bond order it gets THE class of that
+template and the templates are unchanged; if none is, it gets a class no template carries and becomes its
+representative; the template invariant and well-formedness are kept. -/
+theorem libCheck_joins_representative_iso {key : LGraph → κ} (hK : KeyInvIso key) (ts : List (Tmpl LGraph))
+    (hWt : ∀ t ∈ ts, t.item.WF) (hT : TInv clIso ts) (x : LGraph) (hx : x.WF) :
+    (∀ t ∈ ts, (∃ m, IsIso clSel (norm t.item) (norm x) m) → libCheck clIso key x ts = (t.cls, ts)) ∧
+    ((∀ t ∈ ts, ¬ ∃ m, IsIso clSel (norm t.item) (norm x) m) →
+        (libCheck clIso key x ts).1 ∉ ts.map (·.cls) ∧
+        (libCheck clIso key x ts).2 = ts ++ [⟨x, (libCheck clIso key x ts).1⟩]) ∧
+    TInv clIso (libCheck clIso key x ts).2 ∧ (∀ t ∈ (libCheck clIso key x ts).2, t.item.WF) := by
+  obtain ⟨h1, h2, h3, h4⟩ := libCheck_joins_representative_on clIso_equivOn hK.on ts hWt hT x hx
+  refine ⟨fun t ht hm => h1 t ht ((clIso_iff _ x hx).2 hm), fun hall => h2 (fun t ht => ?_), h3, h4⟩
+  cases h : clIso t.item x with
+  | false => rfl
+  | true => exact absurd ((clIso_iff _ x hx).1 h) (hall t ht)
+
+/-- **C13, classification of a whole arrival sequence against existing representatives, for the real
+isomorphism**: two arrivals share a class iff they are isomorphic on element, charge and bond order; an
+arrival gets the class of a template given at the start iff it is isomorphic to that template. -/
+theorem cluster_with_templates_spec_iso {key : LGraph → κ} (hK : KeyInvIso key) (l : List LGraph)
+    (hWl : ∀ G ∈ l, G.WF) (ts : List (Tmpl LGraph)) (hWt : ∀ t ∈ ts, t.item.WF) (hT : TInv clIso ts) :
+    TInv clIso (clusterRun clIso key l ts).2 ∧ (∃ E, (clusterRun clIso key l ts).2 = ts ++ E) ∧
+    (clusterRun clIso key l ts).1.length = l.length ∧
+    (∀ (i j : Nat) (xi xj : LGraph) (ci cj : Int), l[i]? = some xi → l[j]? = some xj →
+      (clusterRun clIso key l ts).1[i]? = some ci → (clusterRun clIso key l ts).1[j]? = some cj →
+      (ci = cj ↔ ∃ m, IsIso clSel (norm xi) (norm xj) m)) ∧
+    (∀ t ∈ ts, ∀ (k : Nat) (x : LGraph) (c : Int), l[k]? = some x → (clusterRun clIso key l ts).1[k]? = some c →
+      (c = t.cls ↔ ∃ m, IsIso clSel (norm t.item) (norm x) m)) := by
+  obtain ⟨h1, h2, h3, h4, h5⟩ := cluster_with_templates_spec_on clIso_equivOn hK.on l hWl ts hWt hT
+  refine ⟨h1, h2, h3, ?_, ?_⟩
+  · intro i j xi xj ci cj hi hj hci hcj
+    rw [h4 i j xi xj ci cj hi hj hci hcj]
+    exact clIso_iff xi xj (hWl _ (List.mem_of_getElem? hj))
+  · intro t ht k x c hk hc
+    rw [h5 t ht k x c hk hc]
+    exact clIso_iff t.item x (hWl _ (List.mem_of_getElem? hk))
+
+/-- **C13, incremental classification in any arrival order, for the real isomorphism.** If the
+well-formed graphs of `xs` arrive in another order (`ys[a] = xs[σ a]`), incremental classification from empty
+templates (`BatchCluster.cluster`, any batching by `incremental_eq_oneshot`) co-classifies two arrivals exactly
+when one-shot clustering of `xs` co-classifies their originals — exactly when the two graphs are isomorphic
+on element, charge and bond order. -/
+theorem incremental_perm_invariant_iso {key : LGraph → κ} (hK : KeyInvIso key) (xs ys : List LGraph)
+    (hWx : ∀ G ∈ xs, G.WF) (hWy : ∀ G ∈ ys, G.WF) (σ : Nat → Nat)
+    (hσ : ∀ a, a < ys.length → σ a < xs.length ∧ ys[a]? = xs[σ a]?)
+    (a b : Nat) (ha : a < ys.length) (hb : b < ys.length) :
+    ((clusterRun clIso key ys []).1[a]? = (clusterRun clIso key ys []).1[b]? ↔
+      classOf clIso key xs (σ a) = classOf clIso key xs (σ b)) ∧
+    ((clusterRun clIso key ys []).1[a]? = (clusterRun clIso key ys []).1[b]? ↔
+      ∃ m, IsIso clSel (norm ys[a]) (norm ys[b]) m) :=
+  ⟨incremental_perm_invariant_on clIso_equivOn hK.on xs ys hWx hWy σ hσ a b ha hb,
+    (incremental_same_class_iff_oneshot clIso key ys a b ha hb).trans (same_class_iff_iso hK ys hWy a b ha hb)⟩
+
+/-- **C13, relabelled copies land in the same class (one-shot clustering).** If position `j` of a list
+of well-formed graphs holds a copy of the graph at position `i` with the node ids renamed by an `f` that
+is injective on the nodes of that graph (node order, edge order and all attributes kept — `relabel_nodes`),
+both positions get the same class. -/
+theorem relabel_same_class_iso {key : LGraph → κ} (hK : KeyInvIso key) (xs : List LGraph) (hW : ∀ G ∈ xs, G.WF)
+    (i j : Nat) (hi : i < xs.length) (hj : j < xs.length) (f : Nat → Nat) (hf : InjOnIds xs[i] f)
+    (e : xs[j] = xs[i].relabel f) : classOf clIso key xs i = classOf clIso key xs j := by
+  have hWi := hW _ (List.getElem_mem hi)
+  have hWj := hW _ (List.getElem_mem hj)
+  rw [same_class_iff_on clIso_equivOn hK.on xs hW i j hi hj, clIso_symm _ _ hWi hWj, e]
+  exact clIso_relabel_self xs[i] hWi f hf
+
+/-- **C13, relabelled copies land in the same class (incremental classification).** With well-formed
+one-representative-per-class templates, a well-formed relabelled copy of a template's graph is put into
+that template's class and the templates stay as they are. -/
+theorem libCheck_relabel_joins_iso {key : LGraph → κ} (hK : KeyInvIso key) (ts : List (Tmpl LGraph))
+    (hWt : ∀ t ∈ ts, t.item.WF) (hT : TInv clIso ts) (t : Tmpl LGraph) (ht : t ∈ ts) (f : Nat → Nat)
+    (hf : InjOnIds t.item f) (hx : (t.item.relabel f).WF) :
+    libCheck clIso key (t.item.relabel f) ts = (t.cls, ts) := by
+  have hWt' := hWt t ht
+  refine (libCheck_joins_representative_on clIso_equivOn hK.on ts hWt hT _ hx).1 t ht ?_
+  rw [clIso_symm _ _ hWt' hx]
+  exact clIso_relabel_self t.item hWt' f hf
+
+/-! ### non-vacuity on concrete graphs (`decide`)
+
+`gA`: C(=O)–N⁺ ; `gB`: a relabelled copy (ids renamed, node and edge order changed, one edge written in the
+other direction); `gC`: near miss, one charge changed; `gD`: near miss, one bond order changed; `gE`: `gA` with
+the charges `0` and the single-bond order left out (the `generic_*_match` defaults apply). -/
+
+def gA : LGraph :=
+  { nodes := [(1, [("element", .str "C"), ("charge", .num 0)]), (2, [("element", .str "O"), ("charge", .num 0)]),
+              (3, [("element", .str "N"), ("charge", .num 2)])],
+    edges := [(1, 2, [("order", .num 4)]), (1, 3, [("order", .num 2)])] }
+def gB : LGraph :=
+  { nodes := [(5, [("element", .str "N"), ("charge", .num 2)]), (7, [("element", .str "O"), ("charge", .num 0)]),
+              (6, [("element", .str "C"), ("charge", .num 0)])],
+    edges := [(6, 5, [("order", .num 2)]), (7, 6, [("order", .num 4)])] }
+def gC : LGraph :=
+  { nodes := [(1, [("element", .str "C"), ("charge", .num 0)]), (2, [("element", .str "O"), ("charge", .num 0)]),
+              (3, [("element", .str "N"), ("charge", .num 0)])],
+    edges := [(1, 2, [("order", .num 4)]), (1, 3, [("order", .num 2)])] }
+def gD : LGraph :=
+  { nodes := [(1, [("element", .str "C"), ("charge", .num 0)]), (2, [("element", .str "O"), ("charge", .num 0)]),
+              (3, [("element", .str "N"), ("charge", .num 2)])],
+    edges := [(1, 2, [("order", .num 2)]), (1, 3, [("order", .num 2)])] }
+def gE : LGraph :=
+  { nodes := [(1, [("element", .str "C")]), (2, [("element", .str "O")]),
+              (3, [("element", .str "N"), ("charge", .num 2)])],
+    edges := [(1, 2, [("order", .num 4)]), (1, 3, [])] }
+
+/-- The hypotheses of the `_iso` theorems are satisfiable: the five graphs are well-formed, and the
+constant attribute (`attribute_key = None`) is isomorphism-invariant. -/
+example : ∀ G ∈ [gA, gC, gB, gD, gE], G.WF := by decide
+example : KeyInvIso (fun _ : LGraph => ()) := fun _ _ _ _ _ => rfl
+
+/-- Non-vacuity of `same_class_iff_iso` / `relabel_same_class_iso`: the relabelled copy and the copy with
+defaulted attributes share the class of `gA`; each near miss (one charge, one bond order) is alone. -/
+example : gcClasses clIso (fun _ => ()) [gA, gC, gB, gD, gE] = [some 0, some 1, some 0, some 2, some 0] := by
+  decide
+
+/-- Non-vacuity of `cluster_perm_invariant_iso`: another order of the same list; the classes are renumbered
+by first appearance, the partition is the image ({gA, gB, gE}, {gC}, {gD}). -/
+example : gcClasses clIso (fun _ => ()) [gD, gE, gC, gB, gA] = [some 0, some 1, some 2, some 1, some 1] := by
+  decide
+
+/-- The relabelled copy written with `relabel` (the renaming `v ↦ 8 - v` is injective on the nodes of `gA`,
+not on ℕ): verdict `true` in both directions; the near misses are rejected in both directions. -/
+example : clIso gA (gA.relabel fun v => 8 - v) = true ∧ clIso (gA.relabel fun v => 8 - v) gA = true ∧
+    clIso gA gB = true ∧ clIso gA gC = false ∧ clIso gC gA = false ∧ clIso gA gD = false ∧ clIso gD gA = false ∧
+    clIso gA gE = true ∧ clIso gE gA = true := by decide
+
+/-- Non-vacuity of `libCheck_spec_iso` / `libCheck_joins_representative_iso`: templates `gA ↦ 7`, `gC ↦ 3`;
+the relabelled copy `gB` joins class 7, the bond-order near miss `gD` matches nothing and opens class 8. -/
+example : libCheck clIso (fun _ => ()) gB [⟨gA, 7⟩, ⟨gC, 3⟩] = (7, [⟨gA, 7⟩, ⟨gC, 3⟩]) ∧
+    libCheck clIso (fun _ => ()) gD [⟨gA, 7⟩, ⟨gC, 3⟩] = (8, [⟨gA, 7⟩, ⟨gC, 3⟩, ⟨gD, 8⟩]) := by decide
+
+example : TInv clIso ([⟨gA, 7⟩, ⟨gC, 3⟩] : List (Tmpl LGraph)) := by
+  intro i j a b ha hb hij
+  match i, j with
+  | 0, 0 => exact absurd rfl hij
+  | 0, 1 => simp at ha hb; subst ha; subst hb; decide
+  | 1, 0 => simp at ha hb; subst ha; subst hb; decide
+  | 1, 1 => exact absurd rfl hij
+  | 0, j + 2 => simp at hb
+  | 1, j + 2 => simp at hb
+  | i + 2, _ => simp at ha
+
+/-- Non-vacuity of `cluster_with_templates_spec_iso`: arrivals `gB, gD, gE, gD` against templates
+`gA ↦ 7`, `gC ↦ 3`. -/
+example : (clusterRun clIso (fun _ => ()) [gB, gD, gE, gD] [⟨gA, 7⟩, ⟨gC, 3⟩]).1 = [7, 8, 7, 8] := by decide
+
+/-- Non-vacuity of `incremental_perm_invariant_iso`: incremental classes in two arrival orders. -/
+example : (clusterRun clIso (fun _ => ()) [gA, gC, gB, gD, gE] []).1 = [0, 1, 0, 2, 0] ∧
+    (clusterRun clIso (fun _ => ()) [gD, gE, gC, gB, gA] []).1 = [0, 1, 2, 1, 1] := by decide
+
+/-- The clauses of C13 that speak of isomorphism, for the real isomorphism test on element, charge and bond
+order, for every isomorphism-invariant pre-grouping attribute and all well-formed graphs. (The clauses that
+need no hypothesis on the oracle — partition, incremental = one-shot with class numbers, batched = one-shot,
+raw `lib_check` — are in `C13.FullStatement` for every oracle, `clIso` included.) -/
+def C13.IsoStatement : Prop :=
+  ∀ (κ : Type) [DecidableEq κ] (key : LGraph → κ), KeyInvIso key →
+    -- same class ⇔ isomorphic on element, charge and bond order
+    (∀ (xs : List LGraph), (∀ G ∈ xs, G.WF) → ∀ (i j : Nat) (hi : i < xs.length) (hj : j < xs.length),
+      (classOf clIso key xs i = classOf clIso key xs j ↔ ∃ m, IsIso clSel (norm xs[i]) (norm xs[j]) m)) ∧
+    -- the partition does not depend on the order of the list (one-shot and incremental)
+    (∀ (xs ys : List LGraph), (∀ G ∈ xs, G.WF) → (∀ G ∈ ys, G.WF) → ∀ σ : Nat → Nat,
+      (∀ a, a < ys.length → σ a < xs.length ∧ ys[a]? = xs[σ a]?) →
+      ∀ a b, a < ys.length → b < ys.length →
+        ((classOf clIso key ys a = classOf clIso key ys b ↔ classOf clIso key xs (σ a) = classOf clIso key xs (σ b)) ∧
+         ((clusterRun clIso key ys []).1[a]? = (clusterRun clIso key ys []).1[b]? ↔
+            classOf clIso key xs (σ a) = classOf clIso key xs (σ b)))) ∧
+    -- relabelled copies land in the same class
+    (∀ (xs : List LGraph), (∀ G ∈ xs, G.WF) → ∀ (i j : Nat) (hi : i < xs.length) (hj : j < xs.length) (f : Nat → Nat),
+      InjOnIds xs[i] f → xs[j] = xs[i].relabel f → classOf clIso key xs i = classOf clIso key xs j) ∧
+    -- a new item joins the class of its isomorphic representative, else a fresh class
+    (∀ (ts : List (Tmpl LGraph)) (x : LGraph), (∀ t ∈ ts, t.item.WF) → TInv clIso ts → x.WF →
+      (∀ t ∈ ts, (∃ m, IsIso clSel (norm t.item) (norm x) m) → libCheck clIso key x ts = (t.cls, ts)) ∧
+      ((∀ t ∈ ts, ¬ ∃ m, IsIso clSel (norm t.item) (norm x) m) →
+          (libCheck clIso key x ts).1 ∉ ts.map (·.cls) ∧
+          (libCheck clIso key x ts).2 = ts ++ [⟨x, (libCheck clIso key x ts).1⟩]) ∧
+      TInv clIso (libCheck clIso key x ts).2 ∧ (∀ t ∈ (libCheck clIso key x ts).2, t.item.WF)) ∧
+    -- … and so does every arrival of a whole sequence classified against existing representatives
+    (∀ (l : List LGraph) (ts : List (Tmpl LGraph)), (∀ G ∈ l, G.WF) → (∀ t ∈ ts, t.item.WF) → TInv clIso ts →
+      TInv clIso (clusterRun clIso key l ts).2 ∧ (∃ E, (clusterRun clIso key l ts).2 = ts ++ E) ∧
+      (clusterRun clIso key l ts).1.length = l.length ∧
+      (∀ (i j : Nat) (xi xj : LGraph) (ci cj : Int), l[i]? = some xi → l[j]? = some xj →
+        (clusterRun clIso key l ts).1[i]? = some ci → (clusterRun clIso key l ts).1[j]? = some cj →
+        (ci = cj ↔ ∃ m, IsIso clSel (norm xi) (norm xj) m)) ∧
+      (∀ t ∈ ts, ∀ (k : Nat) (x : LGraph) (c : Int), l[k]? = some x → (clusterRun clIso key l ts).1[k]? = some c →
+        (c = t.cls ↔ ∃ m, IsIso clSel (norm t.item) (norm x) m)))
+
+/-- **C13 for the real isomorphism**, assembled from the `_iso` theorems above. -/
+theorem C13.full_iso : C13.IsoStatement := by
+  intro κ _ key hK
+  refine ⟨fun xs hW i j hi hj => same_class_iff_iso hK xs hW i j hi hj, ?_,
+    fun xs hW i j hi hj f hf e => relabel_same_class_iso hK xs hW i j hi hj f hf e,
+    fun ts x hWt hT hx => libCheck_joins_representative_iso hK ts hWt hT x hx,
+    fun l ts hWl hWt hT => cluster_with_templates_spec_iso hK l hWl ts hWt hT⟩
+  intro xs ys hWx hWy σ hσ a b ha hb
+  exact ⟨(cluster_perm_invariant_iso hK xs ys hWx hWy σ hσ a b ha hb).1,
+    (incremental_perm_invariant_iso hK xs ys hWx hWy σ hσ a b ha hb).1⟩
 
 end SynKit.Cluster
